@@ -28,6 +28,9 @@
 (*     The depth bounds D (filter) / DB (bmdp) are per-instance fields of the batch; the    *)
 (*     history is part of the state (the behaviours form a tree) because the replay needs  *)
 (*     it - no other counter exists.                                                       *)
+(*     A behaviour of the filter machine fixes WHAT is computed, not which Python objects   *)
+(*     carry it: the driver replays the behaviours with fresh belief objects and again with *)
+(*     one belief object / array overwritten in place between the calls (aliasing history). *)
 (* (P) invariants at the bottom.  Emit prints, for every state of every behaviour, what    *)
 (*     the real code has to return at that point (pipeline A).                             *)
 (* Batch record: POMDP instance fields + beliefs (list of weight vectors), machs (list of  *)
